@@ -20,21 +20,20 @@ def cfg(name, k=2, srcends='{"eof", "err"}', iniends='{"closesend", "cancel"}', 
     open(name + ".cfg", "w").write(out)
 
 
-cfg("fwd_k1", k=1)                                     # smallest: calibration
-cfg("fwd_q", k=2)                                      # quick tier: every end mode / fault / position with <= 2 messages each way
-cfg("fwd_t", k=3)                                      # thorough tier
-cfg("fwd_t3s", k=3, syncs="{TRUE}")                   # K = 3, barrier scripts only (completeness; small interleaving)
-cfg("fwd_q2s", k=2, syncs="{TRUE}")
+cfg("fwd_k1", k=1)                                     # quick tier: all 215 scripts with <= 1 message each way (1.03e6 states)
+cfg("fwd_q", k=2)                                      # thorough tier: all 931 scripts with <= 2 messages each way (1.85e7 states)
+cfg("fwd_t", k=3)                                      # all 3863 scripts, racing included: NOT part of a tier (estimated > 3e8 states)
+cfg("fwd_t3s", k=3, syncs="{TRUE}")                   # both tiers: K = 3, the 1932 barrier scripts (1.1e6 states)
 cfg("fwd_live", k=1, invs=None, props="EndTogether Complete")      # leads-to under weak fairness
 cfg("fwd_live_q", k=1, post="FALSE", faults='{"unkMsg", "tgtSendFail", "srcSendFail"}', invs=None, props="EndTogether Complete")   # quick tier
-cfg("fwd_t3n", k=3, srcends='{"eof"}', faults="{}", post="FALSE", syncs="{FALSE}")     # K = 3 racing scripts, ends only
-cfg("fwd_live2", k=2, post="FALSE", invs=None, props="EndTogether Complete")
-cfg("fwd_draft", k=2, race="FALSE")                    # the calibration draft's resolution of the select race (towards the latch)
+cfg("fwd_t3n", k=3, srcends='{"eof"}', faults="{}", post="FALSE", syncs="{FALSE}")     # thorough: K = 3 racing scripts, ends only (2.56e7 states)
+cfg("fwd_draft", k=1, race="FALSE")                    # the calibration draft's resolution of the select race (towards the latch)
 # design mutants (expected: NoStuck violated) - show that the invariants are not vacuous and which mechanisms are redundant
 cfg("mut_nolatchmsg", k=1, latchmsg="FALSE")           # violated
 cfg("mut_nolatchack", k=1, latchack="FALSE")           # holds: the source reacts to the half-close, Fmsg trips the latch
 cfg("mut_noclosesend", k=1, closesend="FALSE")         # holds: Run's deferred cancel ends the source stream
 cfg("mut_nocancel", k=1, cancel="FALSE")               # holds: the handler's return ends the derived context
+cfg("mut_noclosesend_nocancel", k=1, closesend="FALSE", cancel="FALSE")    # holds: the outgoing context is derived from the server stream's
 cfg("mut_nolatchack_noclosesend", k=1, latchack="FALSE", closesend="FALSE")   # violated
 # generator
 cfg("sim_q", k=2, sim=True)
